@@ -4,9 +4,22 @@
 #[path = "@VERIF_ENV@/collections_fixed.rs"]
 mod verif_env;
 use verif_env::{HashMap, HashSet};
-use std::sync::Arc;
+#[path = "@VERIF_ENV@/eager.rs"]
+mod verif_eager;
+use verif_eager::FlatMapEager;
 
 // ------------------------------------------------------------------ environment (assumed)
+/// std Arc replaced by a leaked shared reference without reference counting (memory reclamation is not what the property is
+/// about): with std Arc the counts become symbolic as soon as a clone happens under a symbolic condition, every drop is then a
+/// possible deallocation, and CBMC does not get through
+pub struct Arc<T: 'static>(&'static T);
+impl<T> Arc<T> { pub fn new(x: T) -> Self { Arc(Box::leak(Box::new(x))) } }
+impl<T> Clone for Arc<T> { fn clone(&self) -> Self { Arc(self.0) } }
+impl<T> std::ops::Deref for Arc<T> { type Target = T; fn deref(&self) -> &T { self.0 } }
+impl<T> AsRef<T> for Arc<T> { fn as_ref(&self) -> &T { self.0 } }
+impl<T> std::borrow::Borrow<T> for Arc<T> { fn borrow(&self) -> &T { self.0 } }
+impl<T: PartialEq> PartialEq for Arc<T> { fn eq(&self, o: &Self) -> bool { *self.0 == *o.0 } }
+impl<T: Eq> Eq for Arc<T> {}
 /// real: Actor compared and hashed by address; here by a unique id
 #[derive(PartialEq, Eq, Hash, Debug)] pub struct Actor { pub id: u8 }
 pub struct Fleet { pub groups: HashMap<usize, HashSet<Arc<Actor>>>, pub actors: Vec<Arc<Actor>> }
@@ -14,8 +27,11 @@ pub trait Random { fn uniform_int(&self, min: i32, max: i32) -> i32; }
 
 // ------------------------------------------------------------------ code under contract (verbatim from /repo)
 //@extract vrp-core/src/models/solution/registry.rs :: struct Registry
+//@subst "Arc<dyn Random>" => "std::sync::Arc<dyn Random>" count=1
 //@end
 //@extract vrp-core/src/models/solution/registry.rs :: impl Registry
+//@subst ".flat_map(" => ".flat_map_eager(" count=3
+//@subst "Arc<dyn Random>" => "std::sync::Arc<dyn Random>" count=1
 //@end
 
 #[cfg(kani)]
@@ -29,11 +45,13 @@ mod h {
     /// (built directly; Registry::new's flat_map/collect chain is checked on its own below)
     fn state(free: &[bool; N]) -> (Registry, [Arc<Actor>; N]) {
         let a: [Arc<Actor>; N] = [Arc::new(Actor { id: 0 }), Arc::new(Actor { id: 1 }), Arc::new(Actor { id: 2 })];
-        let mut g0 = HashSet::default(); if free[0] { g0.insert(a[0].clone()); } if free[1] { g0.insert(a[1].clone()); }
-        let mut g1 = HashSet::default(); if free[2] { g1.insert(a[2].clone()); }
+        // every vehicle is entered and the ones in use are taken out again: a vehicle's slot does not depend on the others' state
+        let mut g0 = HashSet::default(); g0.insert(a[0].clone()); g0.insert(a[1].clone());
+        let mut g1 = HashSet::default(); g1.insert(a[2].clone());
+        if !free[0] { g0.remove(&a[0]); } if !free[1] { g0.remove(&a[1]); } if !free[2] { g1.remove(&a[2]); }
         let mut available = HashMap::default(); available.insert(0usize, g0); available.insert(1usize, g1);
         let mut index = HashMap::default(); index.insert(a[0].clone(), 0usize); index.insert(a[1].clone(), 0usize); index.insert(a[2].clone(), 1usize);
-        (Registry { available, index, all: a.to_vec(), random: Arc::new(Rnd) }, a)
+        (Registry { available, index, all: a.to_vec(), random: std::sync::Arc::new(Rnd) }, a)
     }
     fn is_free(r: &Registry, a: &[Arc<Actor>; N], i: usize) -> bool { match r.available.get(&group(i)) { Some(set) => set.contains(&a[i]), None => false } }
 
@@ -57,21 +75,27 @@ mod h {
         while k < N { assert!(is_free(&r, &a, k) == free[k], "post_available_set_is_exactly_the_free_vehicles"); k += 1; }
         assert!(r.all.len() == N && r.index.len() == N, "post_fleet_membership_unchanged");
     }
-    /// views: available() yields exactly the free vehicles, each once; next() one free vehicle per type group that has one; all() everything
+    /// views: available() yields exactly the free vehicles, each once; all() everything
     #[kani::proof] #[kani::unwind(6)]
-    fn registry_views() {
+    fn registry_available_lists_exactly_the_free_vehicles() {
         let free: [bool; N] = kani::any();
         let (r, a) = state(&free);
         let mut seen = [0u8; N];
         for x in r.available() { seen[x.id as usize] += 1; }
         let mut i = 0;
         while i < N { assert!(seen[i] == free[i] as u8, "post_offered_exactly_when_not_in_use"); i += 1; }
-        let mut per_group = [0u8; 2];
-        for x in r.next() { assert!(free[x.id as usize], "post_next_offers_only_free_vehicles"); per_group[group(x.id as usize)] += 1; }
-        assert!(per_group[0] == (free[0] || free[1]) as u8 && per_group[1] == free[2] as u8, "post_next_offers_one_per_group_with_free_vehicles");
         let mut cnt = 0;
         for x in r.all() { cnt += 1; }
         assert!(cnt == N, "post_all_lists_every_vehicle");
+    }
+    /// next() yields one free vehicle per type group that has one, whatever the random draw
+    #[kani::proof] #[kani::unwind(6)]
+    fn registry_next_offers_one_free_vehicle_per_group() {
+        let free: [bool; N] = kani::any();
+        let (r, a) = state(&free);
+        let mut per_group = [0u8; 2];
+        for x in r.next() { assert!(free[x.id as usize], "post_next_offers_only_free_vehicles"); per_group[group(x.id as usize)] += 1; }
+        assert!(per_group[0] == (free[0] || free[1]) as u8 && per_group[1] == free[2] as u8, "post_next_offers_one_per_group_with_free_vehicles");
     }
     /// a deep copy is independent of its original
     #[kani::proof] #[kani::unwind(6)]
@@ -117,7 +141,7 @@ mod h {
     fn registry_new_all_free() {
         let (r0, a) = state(&[true, true, true]);
         let f = Fleet { groups: r0.available.clone(), actors: a.to_vec() };
-        let r = Registry::new(&f, Arc::new(Rnd));
+        let r = Registry::new(&f, std::sync::Arc::new(Rnd));
         let mut k = 0;
         while k < N { assert!(is_free(&r, &a, k), "post_new_registry_offers_every_vehicle"); assert!(r.index.get(&a[k]) == Some(&group(k)), "post_new_registry_indexes_every_vehicle_by_group"); k += 1; }
         assert!(r.all.len() == N, "post_new_registry_lists_every_vehicle");
